@@ -1168,6 +1168,8 @@ def main(outfile):
                                write_if_changed=write_if_changed, block=block))
     import py2lean_fsm
     py2lean_fsm.main_fsm(os.path.join(os.path.dirname(outfile), 'TranslatedFsm.lean'), sys.modules[__name__])
+    import py2lean_lifecycle                                     # separate module: run_forever & co. (C08)
+    py2lean_lifecycle.main_lifecycle(os.path.join(os.path.dirname(outfile), 'TranslatedLifecycle.lean'), sys.modules[__name__])
 
 
 if __name__ == '__main__':
